@@ -616,5 +616,40 @@ def r20_8(ctx):
                  "definition of the choice has no anchor at all - the :ref: dangles", ad.loc(refs[0])))
 
 
+def r20_9(ctx):
+    """R20.9 (a) only a `select` pins an option: _is_item_target_constant() folds an option to y for its strong reverse dependency
+    (`rev_dep`) alone - an `imply` (`weak_rev_dep`) changes a default the user can still override, and folding it hides every
+    option that depends on the negation; (b) two conditions are the same when they are equal part by part in the same order:
+    _conds_equal() never compares an operand of one side with a different position of the other - `A < B` and `B < A` are
+    different rows of a default / range list."""
+    repo = ctx.repo
+    f = repo.func(f"{DOC}:ConfigTargetVisibility._is_item_target_constant")
+    ctx.analysed(f.qual)
+    # the test that pins an option although it has a reachable prompt: the `if` conditions of the function (the promptless arm
+    # below them may look at everything that determines the value)
+    weak = [n for t in ast.walk(f.node) if isinstance(t, ast.If) for n in ast.walk(t.test) if isinstance(n, ast.Attribute) and n.attr in ("weak_rev_dep", "weak_rev_values")]
+    strong = [n for n in ast.walk(f.node) if isinstance(n, ast.Attribute) and n.attr == "rev_dep"]
+    construct = "ConfigTargetVisibility._is_item_target_constant/an option is pinned on by `select` only"
+    if not strong:
+        raise AnchorError("_is_item_target_constant: rev_dep not consulted")
+    (ctx.bad(construct, "an implied option is folded to y although the user can switch it off: everything under `depends on !OPTION` disappears from the documentation", f.loc(weak[0]))
+     if weak else ctx.ok(construct, f.loc(strong[0])))
+    g = repo.func(f"{DOC}:_conds_equal")
+    ctx.analysed(g.qual)
+    a, b = [x.arg for x in g.node.args.args][:2]
+    construct = "_conds_equal/conditions are compared position by position"
+    crossed = []
+    for c in ast.walk(g.node):
+        if isinstance(c, ast.Call) and ast.unparse(c.func) == "_conds_equal" and len(c.args) == 2:
+            x, y = c.args
+            if isinstance(x, ast.Subscript) and isinstance(y, ast.Subscript) and isinstance(x.slice, ast.Constant) and isinstance(y.slice, ast.Constant) \
+                    and {ast.unparse(x.value), ast.unparse(y.value)} == {a, b} and x.slice.value != y.slice.value:
+                crossed.append(c)
+        if isinstance(c, ast.Call) and ast.unparse(c.func) in ("reversed", "sorted", "set", "frozenset") and any(ast.unparse(z) in (a, b) or ast.unparse(z).startswith((a + "[", b + "[")) for z in c.args):
+            crossed.append(c)
+    (ctx.bad(construct, f"`{ast.unparse(crossed[0])[:60]}` compares different positions: `HIGH < LOW` is dropped as a duplicate of `LOW < HIGH` and the documented default / range is "
+             "not the one Kconfig uses", g.loc(crossed[0])) if crossed else ctx.ok(construct, g.loc()))
+
+
 def rules():
-    return [("R20.8", r20_8, 5), ("R20.7", r20_7, 3), ("R20.6", r20_6, 4), ("R20.1", r20_1, 8), ("R20.2", r20_2, 3), ("R20.4", r20_4, 5), ("R20.3", r20_3, 7), ("R20.5", r20_5, 3)]
+    return [("R20.9", r20_9, 2), ("R20.8", r20_8, 5), ("R20.7", r20_7, 3), ("R20.6", r20_6, 4), ("R20.1", r20_1, 8), ("R20.2", r20_2, 3), ("R20.4", r20_4, 5), ("R20.3", r20_3, 7), ("R20.5", r20_5, 3)]
